@@ -45,6 +45,17 @@ def check_from(gd, dist, D, q, r, central):
 
 def make_ball(graph, D, cut):
     """The BFS result with hashes for layers 0..D, obtained the way `cut` says: by max_diameter, by the layer-size limit, or by a stop condition."""
+    if cut and cut[-1] == "saved_and_loaded":
+        import os, tempfile
+        from cayleypy.algo.bfs_result import BfsResult
+        b = make_ball(graph, D, cut[:-1])
+        fd, fn_ = tempfile.mkstemp(suffix=".h5")
+        os.close(fd)
+        try:
+            b.save(fn_)
+            return BfsResult.load(fn_)
+        finally:
+            os.unlink(fn_)
     if not cut or cut[0] == "diameter":
         return graph.bfs(max_diameter=D, return_all_hashes=True)
     if cut[0] == "explore":
@@ -69,7 +80,9 @@ def run(ctx):
     coq_cases, metas = [], []
     with bfsrun.Monitors() as mon:
         for _ in range(ctx.budget(60, 500)):
-            gd = (G.gen_repeated_closed(rng, ctx.budget(300, 2500)) if len(coq_cases) % 5 == 4 else G.gen_colliding_coset(rng, 800) if len(coq_cases) % 5 == 2
+            deep = len(coq_cases) % 7 == 6
+            gd = (G.gen_deep_directed(rng, 800, min_layers=12) if deep else
+                  G.gen_repeated_closed(rng, ctx.budget(300, 2500)) if len(coq_cases) % 5 == 4 else G.gen_colliding_coset(rng, 800) if len(coq_cases) % 5 == 2
                   else P.gen_invertible_graph(rng, ctx.budget(300, 2500)))
             cfgd = G.gen_config(rng, gd)
             graph = G.make_graph(gd, cfgd)
@@ -87,8 +100,25 @@ def run(ctx):
             elif ecc >= 2 and r0 < 0.4:
                 D = rng.randint(1, ecc)
                 cut = ["stop", D]
+            reload = (rng.random() < 0.2 or deep) and gd["kind"] == "perm"       # saving is defined for permutation graphs only (C18)
+            if reload and ecc >= 11:
+                D = rng.randint(11, ecc + 1)            # eleven or more layers in the file: "layer 10" sorts before "layer 2" as a string
+                cut = ["diameter", D]
             ctx.count("ball_cut_by_" + cut[0])
             ball = make_ball(graph, D, cut)
+            if reload:
+                # the same ball after a round trip through a file: a loaded result "kept hashes for layers 0..D" too
+                import os, tempfile
+                from cayleypy.algo.bfs_result import BfsResult
+                fd, fn_ = tempfile.mkstemp(suffix=".h5", dir=ctx.work)
+                os.close(fd)
+                try:
+                    ball.save(fn_)
+                    ball = BfsResult.load(fn_)
+                finally:
+                    os.unlink(fn_)
+                cut = cut + ["saved_and_loaded"]
+                ctx.count("ball_saved_and_loaded" + ("_11plus_layers" if len(ball.layer_sizes) >= 11 else ""))
             Deff = len(ball.layer_sizes) - 1
             if cut[0] != "diameter" and Deff != D:
                 ctx.violation("property_fails", f"BFS cut by {cut} kept layers 0..{Deff}, the reference says 0..{D}", {"graph": gd, "config": cfgd, "depth": D, "cut": cut, "query": list(gd["central"]), "finder": "to"}, True)
@@ -123,6 +153,20 @@ def run(ctx):
                     rv = graph.definition.revert_path(pth)
                     if len(rv) != len(pth) or G.run_path(gd, end, rv) != tuple(q):
                         ctx.violation("property_fails", "revert_path does not lead back", {"graph": gd, "path": pth, "state": q, "finder": "revert"}, True)
+            # query states that are not states of the graph at all: a symbol just outside the code alphabet (2^w exactly, 2^w + 1, max + 1).  The answer must be
+            # "no path" or a refusal - never a generator sequence (oracle only: the model's states are in range by construction)
+            if gd["kind"] == "perm":
+                w_ = int(graph.string_encoder.w) if graph.string_encoder is not None else max(1, max(gd["central"]).bit_length())
+                for _k in range(2):
+                    alien = list(rng.choice(sorted(dist)))
+                    alien[rng.randrange(len(alien))] = rng.choice([2 ** w_, 2 ** w_, 2 ** w_ + 1, max(gd["central"]) + 1]) if w_ < 62 else max(gd["central"]) + 1
+                    if tuple(alien) in dist:
+                        continue
+                    r, _ = P.res_path_lit(lambda: graph.find_path_to(list(alien), ball))
+                    ctx.count("alien_symbol_queries")
+                    if r is not None and not isinstance(r, tuple):
+                        ctx.violation("property_fails", f"find_path_to returned the path {r} for {alien}, which is not a state of the graph (symbol outside the alphabet)",
+                                      {"graph": gd, "config": cfgd, "depth": D, "cut": cut, "query": alien, "finder": "to"}, True)
             coq_cases.append(f"(Build_path_case {G.coq_gdesc(gd, graph)} {P.inv_mats_lit(graph)} {graph.batch_size} {D}%N {clist(qlits)})")
             metas.append({"graph": gd, "config": cfgd, "depth": D, "cut": cut, "queries": qs})
             ctx.count("kind_" + gd["kind"]); ctx.count("directed" if not ic else "undirected")
